@@ -379,7 +379,7 @@ func sampleScenario(rng *rand.Rand, mode Mode, i int, thorough bool) Scenario {
 		MaxMultipartMemory: []int64{0, 1, 64, 1000, 32 << 20}[rng.Intn(5)],
 		PoolPolicy:         rng.Intn(3),
 		Poison:             rng.Intn(4) != 0,
-		MapPolicy:          []int{2, 3, 4, 4, 0}[rng.Intn(5)],
+		MapPolicy:          []int{2, 3, 4, 4, 1}[rng.Intn(5)], // never native: an uncontrolled map order makes the wire bytes, and with them the schedule, unrepeatable
 	}
 	switch rng.Intn(5) {
 	case 0:
